@@ -1,5 +1,5 @@
 (* C08 — no input makes gopatch crash or hang.   PARTIAL: see the end of this file. *)
-From GP Require Import Augment AugmentFacts AugmentShape Meta MetaFacts.
+From GP Require Import Augment AugmentFacts AugmentShape Meta MetaFacts AstDiff DiffFacts WalkTotal.
 Local Open Scope nat_scope.
 
 (* The hand-written token scanner of pgo/augment (find.go: pkg, imports, topLevelDecl,
@@ -77,6 +77,27 @@ Example C08_ex_leading_dots :      (* "..." alone: three augmentations at offset
   augs_okb 3 [FakePackage 0; FakeFunc 0 true; ADots 0 3 false] = true /\
   augs_okb 3 [ADots 0 3 false; FakeFunc 0 true] = false.
 Proof. vm_compute. repeat split; reflexivity. Qed.
+
+(* ---- the comment stage: internal/diff.Difference and internal/astdiff (Model/AstDiff.v) ----
+   Difference - a greedy forward/reverse search over the edit graph with a budget - returns for
+   every pair of lengths and EVERY comparison function: none of its five loops runs for ever
+   (the transcription recurses on explicit fuel; the fuel it is given always suffices) ... *)
+Theorem C08_difference_terminates : forall f nx ny, (0 <= nx)%Z -> (0 <= ny)%Z ->
+  exists es, difference f nx ny = Some es.
+Proof. exact difference_total. Qed.
+Print Assumptions C08_difference_terminates.
+
+(* ... and what it returns is a path from (0, 0) to (nx, ny): it consumes both lists exactly,
+   so walkSlice and compareNodes, which index the lists by it, never index out of range *)
+Theorem C08_difference_consumes_both_lists : forall f nx ny es, (0 <= nx)%Z -> (0 <= ny)%Z ->
+  difference f nx ny = Some es -> Z.of_nat (cx es) = nx /\ Z.of_nat (cy es) = ny.
+Proof. exact difference_lengths. Qed.
+Print Assumptions C08_difference_consumes_both_lists.
+
+(* Snapshot.Diff returns for every pair of snapshots: no loop without end, no index out of range *)
+Theorem C08_snapshot_diff_total : forall from to, exists w, diff_snapshot from to = Some w.
+Proof. exact diff_snapshot_total. Qed.
+Print Assumptions C08_snapshot_diff_total.
 
 (* What is NOT proved here (checked by running the code only, checks/c08.py parts B and C):
    go/scanner, go/parser, go/printer and imports.Process never crash; the reflection-based
